@@ -13,7 +13,9 @@ pub(super) fn encode(src: &[u8], dst: &mut Vec<u8>) -> io::Result<()> {
     let mut models = vec![Model::new(symbol_count); symbol_count.get()];
     let mut coder = RangeCoder::default();
 
-    models[usize::from(NUL)].encode(dst, &mut coder, src[0])?;
+    if let Some(&sym) = src.first() {
+        models[usize::from(NUL)].encode(dst, &mut coder, sym)?;
+    }
 
     for syms in src.windows(CONTEXT_SIZE) {
         let (prev_sym, sym) = (usize::from(syms[0]), syms[1]);
